@@ -27,7 +27,7 @@ CutSets(L) == {<<>>}
    \cup (IF Bytewise /\ L > 1 THEN {[i \in 1..(L - 1) |-> i]} ELSE {})
 
 Init ==
-  \E m \in Msgs : \E st \in Stales :
+  \E m \in Msgs : \E st \in (IF m.kind \in HeadKinds THEN Stales ELSE {CHOOSE x \in Stales : TRUE}) :    \* the body streams read no stale byte
     LET w == Wire(m) IN
     \E cs \in CutSets(Len(w)) : \E pf \in (IF m.kind \in HeadKinds THEN {FALSE} ELSE BOOLEAN) :
       LET fr == Fragment(w, cs, 0)
